@@ -109,6 +109,9 @@ fn profiles() -> Vec<Prof> {
         Prof { rem: vec!["class"], rcls: vec!["recycled"], ..p("revive", Scope::ClassRecycled) },
         Prof { everything: true, delete: true, ..p("everything", Scope::Everything) },
         Prof { everything: true, delete: true, ..p("everything_recycled", Scope::ClassRecycled) },
+        // one-sided class grants: adding a class granted, removing it not - and the reverse
+        Prof { pres: vec!["class", "gidnumber"], rem: vec!["class", "gidnumber"], pcls: vec!["posixaccount"], ..p("mod_person_posix_add_class_only", Scope::ClassPerson) },
+        Prof { pres: vec!["class", "gidnumber"], rem: vec!["class", "gidnumber"], rcls: vec!["posixaccount"], ..p("mod_person_posix_remove_class_only", Scope::ClassPerson) },
     ]
 }
 
@@ -182,6 +185,7 @@ fn requests() -> Vec<Req> {
         Req::Modify("add class sync_object", vec![PresClass("sync_object")]),
         Req::Modify("add class tombstone", vec![PresClass("tombstone")]),
         Req::Modify("add class dyngroup", vec![PresClass("dyngroup")]),
+        Req::Modify("remove class posixaccount and its gidnumber", vec![RemClass("posixaccount"), RemAttr("gidnumber")]),
         Req::Modify("remove class person", vec![RemClass("person")]),
         Req::Modify("remove class sync_object", vec![RemClass("sync_object")]),
         Req::Modify("remove class system", vec![RemClass("system")]),
@@ -259,6 +263,8 @@ fn template() -> Tpl {
             group_entry("g1", Uuid::from_u128(G1), &[]),
             group_entry("tgroup", tgt_uuid(Tgt::Grp), &[tgt_uuid(Tgt::T2)]),
         ])?;
+        // t2 is a POSIX account (so that there is a class a user could ask to remove)
+        w.internal_modify_uuid(tgt_uuid(Tgt::T2), &ModifyList::new_list(vec![Modify::Present(Attribute::Class, EntryClass::PosixAccount.to_value())]))?;
         w.internal_delete_uuid(tgt_uuid(Tgt::Recycled))?;
         w.internal_delete_uuid(tgt_uuid(Tgt::Tombstone))
     });
@@ -537,7 +543,7 @@ pub fn run(args: &[String]) -> ! {
     ctx.set("distinct_nontrivial", nontrivial);
     ctx.set("requests_that_took_effect", effective);
     ctx.set("profile_sets", sets.len() as u64);
-    ctx.set("rule", format!("profile sets (empty, each of {n} generated profiles, and pairs: all pairs in thorough, 6 chosen pairs in quick) x actor in/out of the receiver group x scope read-write / read-only / synchronise x 7 targets (person t1, person t2, group, built-in account, synchronised object, recycled entry, tombstone) x 24 requests (19 modifies incl. protected class adds/removes and class purge, 3 creates, delete, revive). Non-trivial = requests the statement forbids for that configuration"));
+    ctx.set("rule", format!("profile sets (empty, each of {n} generated profiles, and pairs: all pairs in thorough, 6 chosen pairs in quick) x actor in/out of the receiver group x scope read-write / read-only / synchronise x 7 targets (person t1, person t2, group, built-in account, synchronised object, recycled entry, tombstone) x 25 requests (20 modifies incl. protected class adds/removes and class purge, 3 creates, delete, revive). Non-trivial = requests the statement forbids for that configuration"));
     ctx.set("mismatches", nbad);
     ctx.set("exhaustive", true);
     ctx.assume("soundness direction only, as the statement is phrased: a request that takes effect must be granted; refusals of granted requests are not judged (a vacuity guard requires that granted requests do take effect somewhere)");
